@@ -25,6 +25,10 @@ def construct(m, meta):
     for t in range(120):
         cls=make_tree(rng.randint(2,7))
         objs=[]  # (obj, snapshot) to check immutability
+        held_ids=[]  # (obj, {class: id(namespace)})
+        for c_ in cls:
+            d_ = RenderArgs(c_)
+            held_ids.append((d_, {k: id(v) for k, v in d_._namespaces.items()}))      # the shared default sets
         def rnd_ns():
             C=rng.choice([c for c in cls if c.Args] or [None])
             if C is None: return None
@@ -58,6 +62,11 @@ def construct(m, meta):
             for o,s in objs:
                 if snapshot(o)!=s:
                     bad+=1; problems.append(("an existing object was altered", repr(o))); break
+            # ... down to the identity of what they hold (the shared default set of a class among them): an equal namespace put in the
+            # place of another is an alteration too
+            for o, ids in held_ids:
+                if {k: id(v) for k, v in o._namespaces.items()} != ids:
+                    bad += 1; problems.append(("an existing set now holds other namespace objects (equal values, different identity)", repr(o))); break
 
             # update / convert / | / unary + return new objects obeying the same rule
             if r is not None and nss:
@@ -120,6 +129,15 @@ def construct(m, meta):
                 y = Sub(x.a, x.b)
                 if (x == y) and hash(x) != hash(y):
                     bad += 1; problems.append(("equal namespaces hash differently", repr(x), repr(y)))
+            if r is not None:
+                held_ids.append((r, {k: id(v) for k, v in r._namespaces.items()}))
+                # an initial set equal to the default of its class, but another object: RenderArgs(C, thatset) and thatset.convert(C)
+                if rng.random() < 0.3 and anc(C):
+                    twin = RenderArgs(C, *[A.Args(0, 0) for A in anc(C)])
+                    if twin == RenderArgs(C) and twin is not RenderArgs(C):
+                        for T in cls:
+                            if issubclass(T, C):
+                                RenderArgs(T, twin)
             if r is not None:
                 objs.append((r,snapshot(r)))
                 # eq/hash
